@@ -33,7 +33,12 @@ def run(sid, tier="quick", in_repo=False):
         else:
             wt = "/tmp/seed-wt-%s-%d" % (sid, os.getpid())
             subprocess.run(["git", "-C", "/repo", "worktree", "add", "--detach", "-q", wt, "HEAD"], check=True)
-            subprocess.run(["git", "-C", wt, "apply", patch], check=True)
+            if subprocess.run(["git", "-C", wt, "apply", patch]).returncode != 0:
+                out = {p: {"exit": None, "caught": None, "violations": [], "tier": tier,
+                           "tail": ["patch does not apply to the current /repo HEAD (a later fix: commit touched the same lines)"]}
+                       for p in props}
+                json.dump(out, open(os.path.join(d, "result.json"), "w"), indent=1)
+                return out
             if rust:
                 subprocess.run(["cp", "-a", "/repo/target", wt + "/target"], check=True)
             env["VERIF_REPO"] = wt
